@@ -158,7 +158,7 @@ func getSrcBranchURL(c *Call) (template.URL, template.URL) {
 		case "github.com":
 			if parts := strings.SplitN(rest, "/", 3); len(parts) == 3 {
 				p, srcTag, tag := splitTag(parts[1])
-				url := fmt.Sprintf("https://github.com/%s/%s/blob/%s/%s#L%d", escape(parts[0]), p, srcTag, escape(parts[2]), c.Line)
+				url := fmt.Sprintf("https://github.com/%s/%s/blob/%s/%s#L%d", escape(parts[0]), escape(p), srcTag, escape(parts[2]), c.Line)
 				/* #nosec G203 */
 				return template.URL(url), tag
 			}
@@ -171,7 +171,7 @@ func getSrcBranchURL(c *Call) (template.URL, template.URL) {
 				p, srcTag, tag := splitTag(parts[1])
 				// The source of truth is are actually go.googlesource.com, but
 				// github.com has nicer syntax highlighting.
-				url := fmt.Sprintf("https://github.com/golang/%s/blob/%s/%s#L%d", p, srcTag, escape(parts[2]), c.Line)
+				url := fmt.Sprintf("https://github.com/golang/%s/blob/%s/%s#L%d", escape(p), srcTag, escape(parts[2]), c.Line)
 				/* #nosec G203 */
 				return template.URL(url), tag
 			}
